@@ -16,7 +16,9 @@ def q_alphabet():
     for i in (0, 1, 4):
         for j in (0, 1, 4):
             a.append("mv:%d:%d" % (i, j))
-    a += ["rs:0", "rs:1", "rs:4", "nul:0", "push:0", "push:1", "push:4", "pop", "swap:0:1", "swap:0:4", "swap:1:1", "mk:2:2"]
+    a += ["rs:0", "rs:1", "rs:4", "nul:0", "push:0", "push:1", "push:4", "pop", "swap:0:1", "swap:0:4", "swap:1:1", "mk:2:2",
+          # a creation whose constructor throws (into an empty and into an occupied owner): nothing comes into being
+          "mkx:0:0", "mkx:1:1"]
     return a
 
 
@@ -57,8 +59,10 @@ def gen_c18(tier, rng):
         for _ in range(n):
             r = rng.below(100)
             c = lambda: rng.below(8)
-            if r < 30:
+            if r < 27:
                 ops.append("mk:%d:%d" % (c(), rng.below(3)))
+            elif r < 30:
+                ops.append("mkx:%d:%d" % (c(), rng.below(2)))
             elif r < 50:
                 ops.append("mv:%d:%d" % (c(), c()))
             elif r < 60:
